@@ -231,6 +231,78 @@ def routing_checks(seed):
     return bad
 
 
+def twin_checks():
+    """"a training epoch ... takes an optimiser step on the gradient accumulated over all those batches": observations on real solvers
+    with real optimisers, as twin runs that must coincide exactly (every run):
+    * an optimiser with several parameter groups trains like the same optimiser with one group;
+    * a batch whose loss VALUE is not finite (a flag value added to the loss) but whose gradient is, counts in the accumulated gradient;
+    * networks frozen after some training (requires_grad_(False)) are no longer moved, whatever state the optimiser holds for them."""
+    import warnings
+    import torch
+    from neurodiffeq import diff
+    from neurodiffeq.solvers import Solver1D
+    from neurodiffeq.conditions import IVP
+    from neurodiffeq.networks import FCNN
+    from neurodiffeq.generators import Generator1D
+    bad = []
+    ode = lambda u, v, t: [diff(u, t) - v, diff(v, t) + u]
+
+    def make(opt_of, loss_fn=None, seed=3):
+        torch.manual_seed(seed)
+        nets = [FCNN(1, 1, hidden_units=(4,)) for _ in range(2)]
+        kw = dict(loss_fn=loss_fn) if loss_fn is not None else {}
+        return Solver1D(ode, [IVP(0., 0.), IVP(0., 1.)], t_min=0., t_max=1., nets=nets, optimizer=opt_of(nets), n_batches_train=3, n_batches_valid=1,
+                        train_generator=Generator1D(6, 0., 1., method='equally-spaced'), valid_generator=Generator1D(6, 0., 1., method='equally-spaced'), **kw)
+    params = lambda s: [p.detach().clone() for n in s.nets for p in n.parameters()]
+    same = lambda a, b: all(torch.equal(x, y) for x, y in zip(a, b))
+    with warnings.catch_warnings():
+        warnings.simplefilter('ignore')
+        for oname, one, two in (('SGD', lambda ns: torch.optim.SGD([p for n in ns for p in n.parameters()], lr=0.05),
+                                 lambda ns: torch.optim.SGD([dict(params=list(ns[0].parameters())), dict(params=list(ns[1].parameters()))], lr=0.05)),
+                                ('Adam', lambda ns: torch.optim.Adam([p for n in ns for p in n.parameters()], lr=0.01),
+                                 lambda ns: torch.optim.Adam([dict(params=list(ns[0].parameters())), dict(params=list(ns[1].parameters()))], lr=0.01))):
+            a, b = make(one), make(two)
+            start = params(b)
+            a.fit(2, tqdm_file=None)
+            b.fit(2, tqdm_file=None)
+            if not same(params(a), params(b)):
+                moved = [not torch.equal(x, y) for x, y in zip(start, params(b))]
+                bad.append(dict(case=f'{oname} with one parameter group per network vs one group for all', violated='the two trainings differ: not every '
+                                'parameter is stepped on the accumulated gradient', parameters_that_moved=moved,
+                                train_loss_one_group=a.metrics_history['train_loss'], train_loss_two_groups=b.metrics_history['train_loss']))
+        # a non-finite loss VALUE with a finite gradient
+        calls = []
+
+        def flagged(r, f, x, calls=calls):
+            calls.append(1)
+            base = sum((ri ** 2).mean() for ri in r)
+            return base + (float('inf') if len(calls) % 4 == 2 else 0.0)       # batch 2 of the 3 training batches (+1 validation batch per epoch)
+        plain = lambda r, f, x: sum((ri ** 2).mean() for ri in r)
+        sgd = lambda ns: torch.optim.SGD([p for n in ns for p in n.parameters()], lr=0.05)
+        a, b = make(sgd, loss_fn=plain), make(sgd, loss_fn=flagged)
+        a.fit(2, tqdm_file=None)
+        b.fit(2, tqdm_file=None)
+        if not same(params(a), params(b)):
+            bad.append(dict(case='one training batch per epoch has loss value +inf (finite gradient)', violated='the optimiser step is not on the gradient '
+                            'accumulated over ALL training batches (the trajectories with and without the flag value differ)',
+                            train_loss_with_flag=[float(v) for v in b.metrics_history['train_loss']]))
+        # frozen after some training
+        for oname, opt in (('Adam', lambda ns: torch.optim.Adam([p for n in ns for p in n.parameters()], lr=0.01)),
+                           ('SGD+momentum', lambda ns: torch.optim.SGD([p for n in ns for p in n.parameters()], lr=0.05, momentum=0.9))):
+            s_ = make(opt)
+            s_.fit(2, tqdm_file=None)
+            for p_ in s_.nets[1].parameters():
+                p_.requires_grad_(False)
+            before = [p_.detach().clone() for p_ in s_.nets[1].parameters()]
+            live = [p_.detach().clone() for p_ in s_.nets[0].parameters()]
+            s_.fit(3, tqdm_file=None)
+            drift = max(float((x - y).abs().max()) for x, y in zip(before, s_.nets[1].parameters()))
+            if drift != 0.0 or all(torch.equal(x, y) for x, y in zip(live, s_.nets[0].parameters())):
+                bad.append(dict(case=f'{oname}: second network frozen (requires_grad_(False)) after two epochs', violated='a frozen network keeps moving '
+                                '(or the trainable one stopped)', drift_of_frozen_parameters=drift))
+    return bad
+
+
 def check(tier, seed):
     rep = Report(PID, tier, seed)
     ok, hits = kernel_phase(rep, 'NdeVerif.Proofs.C04', 'NdeVerif.C04', THEOREMS)
@@ -244,7 +316,7 @@ def check(tier, seed):
     camp = Campaign(tier, seed + 2).run()
     if camp.mismatches:
         broken.append(dict(kind='correspondence', stream='real solver vs NdeVerif.Solver', count=len(camp.mismatches), first=camp.mismatches[:2]))
-    bad = evaluate(camp) + [dict(routing=b) for b in routing_checks(seed)]
+    bad = evaluate(camp) + [dict(routing=b) for b in routing_checks(seed)] + twin_checks()
     rep.coverage.update(camp.coverage())
     rep.samples = [dict(script=l, solver=kw) for l, kw in camp.scripts[:3]]
     rep.assumptions = ['optimiser arithmetic is an oracle: scripted integer optimisers stand in for SGD/Adam/LBFGS; the gradient they are handed is '
